@@ -11,6 +11,7 @@ package main
 
 import (
 	"fmt"
+	"os"
 	"go/token"
 	"go/types"
 	"sort"
@@ -34,6 +35,7 @@ type boundsAn struct {
 	fieldOK        map[*types.Var]int     // 0 unknown, 1 validated upper, 2 not
 	fieldOKIdx     map[*types.Var]int
 	fieldNZ        map[*types.Var]int
+	fieldLo        map[*types.Var]int64 // proven minimum of a field (0: none)
 }
 
 func newBounds(w *World, fns []*ssa.Function, trustChecksums bool) *boundsAn {
@@ -484,7 +486,7 @@ func (b *boundsAn) directGuard(v ssa.Value, at *ssa.BasicBlock, kind guardKind, 
 			if !in[m] {
 				// a comparison on a value computed from v by +,-,*,/ and conversions (a geometry sanity check such as
 				// "cluster count computed from the FAT size must be < 4085") bounds v indirectly
-				if kind == gNonZero || !derivedFrom(m, in, 0) {
+				if kind == gNonZero || !b.derivedFrom(m, in, 0) {
 					continue
 				}
 			}
@@ -543,7 +545,7 @@ func (b *boundsAn) directGuard(v ssa.Value, at *ssa.BasicBlock, kind guardKind, 
 				}
 				any = true
 				sub := &boundsAn{w: b.w, scope: b.scope, tv: map[ssa.Value]bool{p: true}, tlen: b.tlen, tf: b.tf, retT: b.retT, origin: b.origin,
-					loopBound: b.loopBound, fieldOK: b.fieldOK, fieldOKIdx: b.fieldOKIdx, fieldNZ: b.fieldNZ}
+					loopBound: b.loopBound, fieldOK: b.fieldOK, fieldOKIdx: b.fieldOKIdx, fieldNZ: b.fieldNZ, trustChecksums: b.trustChecksums}
 				if !sub.directGuard(p, ret.Block(), kind, depth+3) {
 					okAll = false
 				}
@@ -594,6 +596,11 @@ func (b *boundsAn) maxBits(v ssa.Value, depth int) int {
 		case token.QUO:
 			if c, ok := constInt(x.Y); ok && c > 0 {
 				return min(tb, b.maxBits(x.X, depth+1)-log2(c))
+			}
+			if depth <= 10 {
+				if k := b.minConst(x.Y, x.Block(), 0); k > 1 {
+					return min(tb, b.maxBits(x.X, depth+1)-log2(k)) // divisor validated to be at least k
+				}
 			}
 			return min(tb, b.maxBits(x.X, depth+1))
 		case token.SHR:
@@ -741,6 +748,9 @@ func (b *boundsAn) isGuarded(v ssa.Value, at *ssa.BasicBlock, kind guardKind, de
 	}
 	if kind == gUpper && !b.noWidth && depth == 0 && b.widthBelow(v, 24) {
 		return true
+	}
+	if bo, ok := v.(*ssa.BinOp); ok && bo.Op == token.MUL && kind == gUpper && !b.noWidth && b.maxBits(v, 0) <= 24 {
+		return true // a product whose factors' types keep it below 2^24 (sectors per cluster x bytes per sector)
 	}
 	switch x := v.(type) {
 	case *ssa.Convert:
@@ -958,7 +968,7 @@ func (b *boundsAn) validatedBeforeSuccess(st *ssa.Store, kind guardKind) bool {
 				guarded := false
 				for _, ld := range loads {
 					sub := &boundsAn{w: b.w, scope: b.scope, tv: map[ssa.Value]bool{ld: true}, tlen: b.tlen, tf: b.tf, retT: b.retT, origin: b.origin,
-						loopBound: b.loopBound, fieldOK: b.fieldOK, fieldOKIdx: b.fieldOKIdx, fieldNZ: b.fieldNZ}
+						loopBound: b.loopBound, fieldOK: b.fieldOK, fieldOKIdx: b.fieldOKIdx, fieldNZ: b.fieldNZ, trustChecksums: b.trustChecksums}
 					if sub.directGuard(ld, ret.Block(), kind, 3) {
 						guarded = true
 					}
@@ -1481,23 +1491,284 @@ func clampToRemaining(bin *ssa.BinOp, e0, e1 ssa.Value) bool {
 	return false
 }
 
-// derivedFrom: m is computed from a member of set through arithmetic and conversions only.
-func derivedFrom(m ssa.Value, set map[ssa.Value]bool, depth int) bool {
+// minConst: the greatest constant K for which v >= K is established at block `at` (0: nothing known). Sources:
+// constants; a dominating comparison of (an alias of) v with a positive constant on the edge where v is not smaller;
+// a validator call on v whose accepted paths all establish a minimum; parameters (every in-scope call site);
+// fields (every in-scope store, validated at the store or before the storing function succeeds).
+func (b *boundsAn) minConst(v ssa.Value, at *ssa.BasicBlock, depth int) (res int64) {
+	if depth > 20 || at == nil {
+		return 0
+	}
+	if os.Getenv("DFS_DEBUG_MIN") != "" {
+		defer func() {
+			fmt.Fprintf(os.Stderr, "%*sminConst %s %s in %s = %d\n", depth, "", v.Name(), v.String(), fnName(at.Parent()), res)
+		}()
+	}
+	if c, ok := constInt(v); ok {
+		if c > 0 {
+			return c
+		}
+		return 0
+	}
+	best := int64(0)
+	up := func(k int64) {
+		if k > best {
+			best = k
+		}
+	}
+	fn := at.Parent()
+	in := map[ssa.Value]bool{}
+	for _, a := range b.aliases(v) {
+		in[a] = true
+	}
+	for _, blk := range fn.Blocks {
+		iff, ok := lastInstr(blk).(*ssa.If)
+		if !ok {
+			continue
+		}
+		bin, ok := iff.Cond.(*ssa.BinOp)
+		if !ok {
+			continue
+		}
+		for _, mOnX := range []bool{true, false} {
+			m, other := bin.X, bin.Y
+			if !mOnX {
+				m, other = bin.Y, bin.X
+			}
+			k, isC := constInt(other)
+			if !in[m] || !isC || k <= 0 {
+				continue
+			}
+			op := bin.Op
+			if !mOnX {
+				switch op {
+				case token.LSS:
+					op = token.GTR
+				case token.LEQ:
+					op = token.GEQ
+				case token.GTR:
+					op = token.LSS
+				case token.GEQ:
+					op = token.LEQ
+				}
+			}
+			idx, low := -1, int64(0)
+			switch op {
+			case token.LSS: // m < K: false edge m >= K
+				idx, low = 1, k
+			case token.LEQ:
+				idx, low = 1, k+1
+			case token.GEQ:
+				idx, low = 0, k
+			case token.GTR:
+				idx, low = 0, k+1
+			case token.EQL:
+				idx, low = 0, k
+			case token.NEQ:
+				idx, low = 1, k
+			}
+			if idx >= 0 && edgeDominates(blk, idx, at) {
+				up(low)
+			}
+		}
+	}
+	// validator call on an alias whose nil-error edge dominates `at`
+	for _, blk := range fn.Blocks {
+		for _, ins := range blk.Instrs {
+			c, ok := ins.(*ssa.Call)
+			if !ok {
+				continue
+			}
+			g := c.Call.StaticCallee()
+			if g == nil || g.Blocks == nil || !b.w.inModule(g) || errResultIndex(g.Signature) < 0 {
+				continue
+			}
+			argIdx := -1
+			for i, a := range c.Call.Args {
+				if in[a] || in[stripConv(a)] {
+					argIdx = i
+				}
+			}
+			if argIdx < 0 || argIdx >= len(g.Params) {
+				continue
+			}
+			iff, nilIdx := errNilEdge(fn, c)
+			if iff == nil || !edgeDominates(iff.Block(), nilIdx, at) {
+				continue
+			}
+			lo, any := int64(-1), false
+			for _, ret := range returnsOf(g) {
+				if classifyReturn(ret) == RetError {
+					continue
+				}
+				any = true
+				k := b.minConst(g.Params[argIdx], ret.Block(), depth+2)
+				if lo < 0 || k < lo {
+					lo = k
+				}
+			}
+			if any && lo > 0 {
+				up(lo)
+			}
+		}
+	}
+	switch x := v.(type) {
+	case *ssa.Convert:
+		if typeBits(x.Type()) >= typeBits(x.X.Type()) {
+			up(b.minConst(x.X, at, depth+1))
+		}
+	case *ssa.ChangeType:
+		up(b.minConst(x.X, at, depth+1))
+	case *ssa.Parameter:
+		pf := x.Parent()
+		idx := -1
+		for i, p := range pf.Params {
+			if p == x {
+				idx = i
+			}
+		}
+		node := b.w.CHA().Nodes[pf]
+		lo, n := int64(-1), 0
+		if node != nil && idx >= 0 {
+			for _, e := range node.In {
+				if e.Site == nil || !b.scope[e.Caller.Func] {
+					continue
+				}
+				cc := e.Site.Common()
+				if cc.IsInvoke() || idx >= len(cc.Args) {
+					lo = 0
+					continue
+				}
+				n++
+				k := b.minConst(cc.Args[idx], e.Site.Block(), depth+1)
+				if lo < 0 || k < lo {
+					lo = k
+				}
+			}
+		}
+		if n > 0 && lo > 0 {
+			up(lo)
+		}
+	case *ssa.UnOp:
+		if x.Op == token.MUL {
+			if fa, ok := x.X.(*ssa.FieldAddr); ok {
+				if _, f, _, ok := fieldOfAddr(fa); ok {
+					up(b.fieldMin(f, depth))
+				}
+			}
+		}
+	case *ssa.Field:
+		if _, f, _, ok := fieldOfAddr(x); ok {
+			up(b.fieldMin(f, depth))
+		}
+	}
+	return best
+}
+
+// fieldMin: a minimum every in-scope store to f establishes (at the store, or on every success return of the storing function).
+func (b *boundsAn) fieldMin(f *types.Var, depth int) int64 {
+	if b.fieldLo == nil {
+		b.fieldLo = map[*types.Var]int64{}
+	}
+	if k, ok := b.fieldLo[f]; ok {
+		return k
+	}
+	b.fieldLo[f] = 0 // recursion guard
+	b.w.buildFieldIndex()
+	lo, n := int64(-1), 0
+	for _, st := range b.w.fieldStoreIns[f] {
+		if !b.scope[st.Parent()] {
+			continue
+		}
+		n++
+		k := b.minConst(st.Val, st.Block(), depth+1)
+		if k == 0 {
+			// validated after the store, before any success return
+			k2, any := int64(-1), false
+			for _, ret := range returnsOf(st.Parent()) {
+				if classifyReturn(ret) == RetError {
+					continue
+				}
+				any = true
+				kk := b.minConst(st.Val, ret.Block(), depth+1)
+				if k2 < 0 || kk < k2 {
+					k2 = kk
+				}
+			}
+			if any && k2 > 0 {
+				k = k2
+			}
+		}
+		if lo < 0 || k < lo {
+			lo = k
+		}
+	}
+	if n == 0 || lo < 0 {
+		lo = 0
+	}
+	b.fieldLo[f] = lo
+	return lo
+}
+
+// derivedFrom: m is computed from a member v of set through arithmetic and conversions in such a way that an upper
+// bound on m is an upper bound on v: m is non-decreasing in v (v is an addend, a factor, the dividend or the shifted
+// value, never a subtrahend, divisor or shift amount) and no step can wrap around in its integer type (a product of
+// two 32-bit header fields computed in 32 bits says nothing about its factors).
+func (b *boundsAn) derivedFrom(m ssa.Value, set map[ssa.Value]bool, depth int) bool {
 	if depth > 10 {
 		return false
 	}
 	if set[m] {
 		return true
 	}
+	tb := typeBits(m.Type())
+	if tb == 0 {
+		tb = 64
+	}
 	switch x := m.(type) {
 	case *ssa.Convert:
-		return derivedFrom(x.X, set, depth+1)
+		if xb := typeBits(x.X.Type()); xb > tb && b.maxBits(x.X, 0) > tb {
+			return false // narrowing that can drop high bits
+		}
+		return b.derivedFrom(x.X, set, depth+1)
 	case *ssa.ChangeType:
-		return derivedFrom(x.X, set, depth+1)
+		return b.derivedFrom(x.X, set, depth+1)
 	case *ssa.BinOp:
+		bx, by := b.maxBits(x.X, 0), b.maxBits(x.Y, 0)
 		switch x.Op {
-		case token.ADD, token.SUB, token.MUL, token.QUO, token.SHL, token.SHR:
-			return derivedFrom(x.X, set, depth+1) || derivedFrom(x.Y, set, depth+1)
+		case token.ADD:
+			mx := bx
+			if by > mx {
+				mx = by
+			}
+			if tb < 64 && mx+1 > tb {
+				return false // a sum of 64-bit quantities derived from lengths and 32-bit fields does not wrap; narrower sums can
+			}
+			return b.derivedFrom(x.X, set, depth+1) || b.derivedFrom(x.Y, set, depth+1)
+		case token.MUL:
+			if bx+by > tb {
+				return false
+			}
+			return b.derivedFrom(x.X, set, depth+1) || b.derivedFrom(x.Y, set, depth+1)
+		case token.SHL:
+			c, ok := constInt(x.Y)
+			if !ok || bx+int(c) > tb {
+				return false
+			}
+			return b.derivedFrom(x.X, set, depth+1)
+		case token.SUB:
+			if b.derivedFrom(x.X, set, depth+1) {
+				return true
+			}
+			// a - v in unsigned arithmetic: if v exceeds a the difference wraps to a value of the order of the type's
+			// range and the comparison rejects it, otherwise v <= a. Under the single-corrupted-field model (C18) a is
+			// genuine, so v is bounded; with several hostile fields (C15) a itself would have to be bounded.
+			if bt, ok := x.Type().Underlying().(*types.Basic); ok && bt.Info()&types.IsUnsigned != 0 && b.trustChecksums {
+				return b.derivedFrom(x.Y, set, depth+1)
+			}
+			return false
+		case token.QUO, token.SHR:
+			return b.derivedFrom(x.X, set, depth+1)
 		}
 	}
 	return false
